@@ -322,7 +322,9 @@ CHECKS = {
         level_note="the backlog model starts at a drain (queue empty, sender idle) and needs the streaming filter relation (decided by C06); exported queue size only bounded from above",
         rule=("cases are scenarios of 8-40 steps; non-trivial = while a subscriber was stalled a burst contained >=2 updates to one leaf (coalesced) and a delete; distinct = distinct hash of the scenario"),
         assumptions=COMMON + [SYNCTEST_ASSUMPTION],
-        parts=[dict(name="random", run="TestC08Random", checks=dict(quick=2500, thorough=50000), shards=dict(quick=4, thorough=16))],
+        parts=[dict(name="random", run="TestC08Random", checks=dict(quick=2500, thorough=50000), shards=dict(quick=4, thorough=16)),
+               # targets with more than 65536 leaves and subscribers that stall at once (each case costs seconds)
+               dict(name="huge", run="TestC08Huge", checks=dict(quick=2, thorough=8), shards=dict(quick=2, thorough=8))],
     ),
     "C11": dict(
         engine="coalesceprop",
